@@ -290,11 +290,53 @@ def work_history(chunk, st):
     st.sample({'history': list(chunk[0][0])}, cap=3)
 
 
+# ---- measured attributes under faults: whatever goes wrong on a probe connection, an algorithm shown with a given measured size
+# carries the notes that name and size earn in a fault-free audit (or it is shown without a size)
+def work_gex_faults(chunk, st):
+    GEX = 'diffie-hellman-group-exchange-sha256'
+    for sizes, style, banner in chunk:
+        def mk():
+            return peer.Server(label='gf', kex=[GEX, 'curve25519-sha256'], key=['ssh-ed25519'], enc=['aes256-ctr'], mac=['hmac-sha2-256'], banner=banner,
+                               host_keys=peer.standard_host_keys(['ssh-ed25519']), gex=peer.GexPolicy(list(sizes), style))
+        by_size = {}
+        base = H.audit(mk(), opts=['-n', '--skip-rate-test'])
+        nconn = len(base.world.conns)
+        plans = [None] + [{('gf', i, -1): ('refuse',)} for i in range(1, nconn)] + [{('gf', i, 2): ('reset',)} for i in range(1, nconn)] + \
+                [{('gf', i, 2): ('trunc_close', 5)} for i in range(1, nconn)] + [{('gf', i, 1): ('trunc_stall', 3)} for i in range(1, nconn)]
+        for fmt in ('text', 'json'):
+            for plan in plans:
+                res = H.audit(mk(), opts=['-n', '--skip-rate-test'] + (['-j'] if fmt == 'json' else []), faults=plan)
+                st.execution(res.world, outcome=('gex-fault', res.status, fmt), root=('gex-fault', sizes, style, banner, fmt, str(plan)), nontrivial=('gex-fault', sizes, style, banner, fmt, str(plan)))
+                if res.status not in (0, 2, 3) or res.hang or res.exc:
+                    continue
+                if fmt == 'json':
+                    e = next((x for x in json.loads(res.stdout).get('kex', []) if x['algorithm'] == GEX), None)
+                    size = None if e is None else e.get('keysize')
+                    notes = None if e is None else tuple(sorted((lv, t) for lv in ('fail', 'warn', 'info') for t in e.get('notes', {}).get(lv, [])))
+                else:
+                    a = next((x for x in report.TextReport(res.stdout).algs['kex'] if x['name'] == GEX), None)
+                    size = None if a is None else a['size']
+                    notes = None if a is None else tuple(sorted((lv, t) for lv, t in a['notes'] if t != ''))
+                if notes is None:
+                    continue
+                by_size.setdefault((fmt, size), {}).setdefault(notes, plan)
+        for (fmt, size), variants in by_size.items():
+            if len(variants) > 1:
+                vs = list(variants.items())
+                st.violation('rating-varies:measured-size-under-probe-faults:%s' % fmt,
+                             {'moduli': list(sizes), 'style': style, 'banner': banner.decode(), 'shown_size': size,
+                              'differing_notes': sorted(set(vs[0][0]) ^ set(vs[1][0]))[:4], 'plans': [str(vs[0][1]), str(vs[1][1])]})
+    st.sample({'gex_fault_servers': [[list(c[0]), c[1]] for c in chunk[:2]]}, cap=3)
+
+
 def run(tier, seed):
     t0 = time.time()
     ts = tasks(tier)
     ctxs = contexts(tier)
     st = par.pmap(work, ts, extra=(ctxs,), chunk=4)
+    gf = [(sz, style, b) for sz in ((2048,), (2048, 3072), (1024, 4096), (3072,)) for style in (peer.OPENSSH, peer.STRICT)
+          for b in (b'SSH-2.0-OpenSSH_8.9p1', b'SSH-2.0-dropbear_2022.83')]
+    par.pmap(work_gex_faults, gf, stats=st, chunk=1)
     import itertools
     hist = [(k, f) for n in ((2,) if tier == 'quick' else (2, 3)) for k in itertools.product(sorted(HIST), repeat=n) for f in ('text', 'json')]
     par.pmap(work_history, hist, stats=st, chunk=4)
